@@ -4,6 +4,7 @@
 package svc
 
 import (
+	"strconv"
 	"context"
 	"errors"
 	"fmt"
@@ -767,7 +768,44 @@ func ViewDigest(v *manager.View, withTags bool) (string, error) {
 		}
 		s0 = o.Digest
 	}
-	return strings.Join(lines, "\n") + "\nsearch cport:1 -> " + strings.Join(found, ",") + "\nstream0=" + s0, nil
+	// every stream the enumeration showed must be found by the single-stream lookup, as the same version;
+	// an id above all of them must not be found
+	var lookups []string
+	maxID := uint64(0)
+	for _, l := range lines {
+		idText, digest, _ := strings.Cut(l, " ")
+		if i := strings.Index(digest, " tags="); i >= 0 {
+			digest = digest[:i]
+		}
+		id, _ := strconv.ParseUint(idText, 10, 64)
+		if id > maxID {
+			maxID = id
+		}
+		sc, err := v.Stream(id)
+		if err != nil {
+			return "", err
+		}
+		switch {
+		case sc.Stream() == nil:
+			lookups = append(lookups, fmt.Sprintf("lookup %d finds nothing although the enumeration shows the stream", id))
+		default:
+			o, err := ObserveStream(sc.Stream())
+			if err != nil {
+				return "", err
+			}
+			if o.Digest != digest {
+				lookups = append(lookups, fmt.Sprintf("lookup %d finds another version than the enumeration shows: %s", id, o.Digest))
+			}
+		}
+	}
+	if sc, err := v.Stream(maxID + 1); err == nil && sc.Stream() != nil && len(lines) != 0 {
+		lookups = append(lookups, fmt.Sprintf("lookup %d finds a stream the enumeration does not show", maxID+1))
+	}
+	out := strings.Join(lines, "\n") + "\nsearch cport:1 -> " + strings.Join(found, ",") + "\nstream0=" + s0
+	if len(lookups) != 0 {
+		out += "\nLOOKUP " + strings.Join(lookups, "\nLOOKUP ")
+	}
+	return out, nil
 }
 
 var _ = mc.Fatal
